@@ -22,7 +22,7 @@ A2 == "10.0.0.2"
 WSP == "web-sidecar-proxy"
 ASP == "api-sidecar-proxy"
 TwinMap == [web |-> WSP, api |-> ASP, ghost |-> "ghost-sidecar-proxy"]
-ChkId == [w1 |-> "w1c", w2 |-> "w2c", a1 |-> "a1c", wp1 |-> "wp1c", ap1 |-> "ap1c"]
+ChkId == [w1 |-> "w1c", w2 |-> "w2c", a1 |-> "a1c", wp1 |-> "wp1c", ap1 |-> "ap1c", d1 |-> "d1c"]
 InstId == [web |-> "w1", api |-> "a1"] @@ (WSP :> "wp1") @@ (ASP :> "ap1")
 
 Stat(k) == IF k = 1 THEN "passing" ELSE "critical"
@@ -93,6 +93,46 @@ LSvcAll == {[name |-> "web", kind |-> ""], [name |-> "api", kind |-> ""], [name 
 CmdsExp == {[t |-> "export", cfg |-> c, lsvcs |-> l, peer |-> p, offered |-> Exported(c, l, p)]
               : c \in Cfgs, l \in SUBSET LSvcAll, p \in ExpPeers}
 
+(* ---------------- profile "e2e" ---------------- *)
+(* state = [i : importer catalog, cfg, x : exporter's local catalog, prev : what was exported     *)
+(* before the last command].  prev is a history variable: it makes "a catalog change of a service *)
+(* that the last config write swapped out" a transition of its own in the generated behaviours.   *)
+C1 == "c1"
+C2 == "c2"
+FlatId == [w1 |-> "w1:overall-check", a1 |-> "a1:overall-check", d1 |-> "d1:overall-check"]
+XReg(n, id, name, ver, s, ns) ==
+  [t |-> "xreg", peer |-> P1, consumer |-> C1, node |-> n, addr |-> A1, id |-> id, name |-> name, cid |-> ChkId[id],
+   ver |-> ver, st |-> s, nst |-> ns]
+XDereg(n, id, name) == [t |-> "xdereg", peer |-> P1, consumer |-> C1, node |-> n, id |-> id, name |-> name]
+XCfg(c) == [t |-> "xcfg", peer |-> P1, consumer |-> C1, cfg |-> c]
+E2ENames(r) == IF r = 0 THEN {"web", "api"} ELSE {"web", "api", "db"}
+\* every replacement of the exported set in ONE write; an entry for the other consumer is always mixed in
+CfgOf(E, w) == {[name |-> n, peers |-> {C1}] : n \in E} \cup {[name |-> "web", peers |-> {C2}]}
+                 \cup (IF w THEN {[name |-> Wildcard, peers |-> {C1}]} ELSE {})
+CmdsE2E(r) ==
+       {XCfg(CfgOf(E, w)) : E \in SUBSET E2ENames(r), w \in (IF r = 0 THEN {FALSE} ELSE BOOLEAN)}
+  \cup {XReg("n1", "w1", "web", "1", s, ns) : s \in (IF r = 0 THEN {"passing", "critical"} ELSE {"passing", "critical", "none"}),
+                                             ns \in (IF r = 0 THEN {"none"} ELSE {"none", "critical"})}
+  \cup {XReg("n1", "a1", "api", v, "passing", "none") : v \in {"1", "2"}}
+  \cup (IF r = 0 THEN {} ELSE {XReg("n2", "d1", "db", "1", s, "none") : s \in {"passing", "warning"}})
+  \cup {XDereg("n1", "w1", "web"), XDereg("n1", "a1", "api")}
+  \cup (IF r = 0 THEN {} ELSE {XDereg("n2", "d1", "db")})
+CmdsE2E0 == CmdsE2E(0)
+CmdsE2E1 == CmdsE2E(1)
+XSeedCmds == <<XReg("n1", "w1", "web", "1", "passing", "none"), XReg("n1", "a1", "api", "1", "passing", "none")>>
+SeedE2E ==     \* the importer's own data: the same names under local and under another peer
+  [nodes |-> {[peer |-> Local, node |-> "n1", addr |-> "10.0.0.9"], [peer |-> P2, node |-> "n1", addr |-> "10.0.0.8"]},
+   svcs  |-> {[peer |-> Local, node |-> "n1", id |-> "w1", name |-> "web", ver |-> "9"],
+              [peer |-> P2, node |-> "n1", id |-> "w1", name |-> "web", ver |-> "8"],
+              [peer |-> P2, node |-> "n1", id |-> "a1", name |-> "api", ver |-> "8"]},
+   chks  |-> {[peer |-> Local, node |-> "n1", cid |-> "nc", sid |-> "", st |-> "passing"],
+              [peer |-> P2, node |-> "n1", cid |-> "w1c", sid |-> "w1", st |-> "critical"]}]
+ApplyE2E(s, c) ==
+  LET x2 == ApplyX(s.x, c)
+      cfg2 == IF c.t = "xcfg" THEN c.cfg ELSE s.cfg
+  IN [i |-> Sync(cfg2, x2, s.i, P1, C1, FlatId, TwinMap), cfg |-> cfg2, x |-> x2, prev |-> ExpSet(s.cfg, s.x, C1)]
+InitE2E == [i |-> Seed(EmptyCat, SeedE2E), cfg |-> {}, x |-> ApplyXSeq(EmptyCat, XSeedCmds), prev |-> {}]
+
 (* ---------------- behaviours ---------------- *)
 Rich(d) == IF d = 1 THEN R1 ELSE IF d = 2 THEN R2 ELSE R3
 \* zero-arity definitions are evaluated once by TLC and cached
@@ -100,17 +140,25 @@ CmdsUpd0 == CmdsUpd(0)
 CmdsUpd1 == CmdsUpd(1)
 CmdsUpd2 == CmdsUpd(2)
 CmdsUpdR(r) == IF r = 0 THEN CmdsUpd0 ELSE IF r = 1 THEN CmdsUpd1 ELSE CmdsUpd2
-Cmds(d) == CASE Profile = "upd" -> CmdsUpdR(Rich(d)) [] Profile = "list" -> CmdsList [] OTHER -> CmdsExp
+Cmds(d) == CASE Profile = "upd" -> CmdsUpdR(Rich(d)) [] Profile = "list" -> CmdsList
+             [] Profile = "e2e" -> (IF Rich(d) = 0 THEN CmdsE2E0 ELSE CmdsE2E1) [] OTHER -> CmdsExp
 SeedRows == CASE Profile = "upd" -> SeedUpd [] Profile = "list" -> SeedList
               [] OTHER -> [nodes |-> {}, svcs |-> {}, chks |-> {}]
 
-Init == /\ st = Seed(EmptyCat, SeedRows)
-        \* gw: the harness also gives the local cluster an ingress gateway with a wildcard listener
-        /\ hist = <<[t |-> "seed", rows |-> SeedRows, gw |-> (Profile = "list")]>>
+Init == IF Profile = "e2e"
+        THEN /\ st = InitE2E
+             /\ hist = <<[t |-> "seed", rows |-> SeedE2E, xrows |-> XSeedCmds, peer |-> P1, consumer |-> C1, gw |-> FALSE]>>
+        ELSE /\ st = Seed(EmptyCat, SeedRows)
+             \* gw: the harness also gives the local cluster an ingress gateway with a wildcard listener
+             /\ hist = <<[t |-> "seed", rows |-> SeedRows, gw |-> (Profile = "list")]>>
 Next == /\ Len(hist) <= MaxDepth
         /\ \E c \in Cmds(Len(hist)) :
-             /\ st' = Apply(st, c)
-             /\ hist' = Append(hist, c)
+             /\ st' = IF Profile = "e2e" THEN ApplyE2E(st, c) ELSE Apply(st, c)
+             \* e2e: the command carries the abstract state it leads to (key), so that the driver can chain
+             \* the generated transitions into long walks instead of replaying each from the initial state
+             /\ hist' = Append(hist, IF Profile = "e2e"
+                                     THEN c @@ [key |-> [cfg |-> st'.cfg, xs |-> st'.x.svcs, xc |-> st'.x.chks, prev |-> st'.prev]]
+                                     ELSE c)
 Spec == Init /\ [][Next]_vars
 
 \* the depth is part of the view: with several workers the search is not strictly breadth-first and a
@@ -139,6 +187,12 @@ PropExport == [][Last.t = "export" =>
                    /\ ConsulService \notin Last.offered
                    \* and nothing that has a consumer entry and exists is withheld
                    /\ \A e \in Last.cfg : (Last.peer \in e.peers /\ e.name \notin {Wildcard, ConsulService}) => e.name \in Last.offered]_vars
+IsX == Last.t \in {"xcfg", "xreg", "xdereg"}
+PropE2E == [][IsX => /\ E2EOnlyExported(st'.cfg, st'.x, st'.i, P1, C1) /\ E2EMirror(st'.cfg, st'.x, st'.i, P1, C1)
+                     /\ E2ENodes(st'.cfg, st'.x, st'.i, P1, C1) /\ E2EChecks(st'.i, P1)
+                     /\ NILocal(st.i, st'.i, P1) /\ NIOtherPeers(st.i, st'.i, P1) /\ NIRest(st.i, st'.i, P1)
+                     \* and the exporter offers only what an entry names the consumer for
+                     /\ ExportOnlyIfConsumer(st'.cfg, C1, ExpSet(st'.cfg, st'.x, C1))]_vars
 (* idempotence: applying the same update twice changes nothing the second time *)
 PropIdempotent == [][(IsUpd \/ IsList) => Apply(st', Last) = st']_vars
 =============================================================================
